@@ -11,7 +11,10 @@ with
     first / middle / last; `new_axis` as int / list, before / between / after; both together;
   * `chunks=` given (the extended block sizes) or not; `trim=True` / `trim=False` (direct path only: the plain
     `trim=False` finding of the MapOverlap expression is not touched here);
-  * a second input of LOWER rank (broadcast from the right) with `align_arrays` True (own chunking) / False.
+  * a second input of LOWER (or equal) rank (broadcast from the right) with `align_arrays` True (own chunking) / False,
+    handed over after OR BEFORE the higher-rank one (`swap`: the trim settings must come from the highest-rank input);
+  * the method spelling `x.map_overlap(func, depth, boundary, **kw)`, `allow_rechunk=False` on blocks that already hold
+    their halo, the per-array list spelling of depth / boundary with a single array.
 
 Oracle (NumPy only): `np.pad` per axis with the boundary kind on the WHOLE array, the stencil on the whole padded
 array, crop, sum over the normalised dropped axes, `expand_dims` at the normalised new positions; for `trim=False`
@@ -52,9 +55,11 @@ BOUNDS = ["periodic", "reflect", "nearest", "none", 7]
 # =========================================================================== block function (module level: stable token)
 
 
-def f_axes(*blocks, sx=(), sy=(), drop=(), cut=(), pos=(), rep=1):
+def f_axes(*blocks, sx=(), sy=(), drop=(), cut=(), pos=(), rep=1, swap=False):
     """stencil on every input (own axes/halo widths), broadcast sum, halo cut + sum over `drop`, new axes at `pos`
-    (positions in the OUTPUT), `rep` weighted copies along the first new axis"""
+    (positions in the OUTPUT), `rep` weighted copies along the first new axis; `swap`: the lower-rank input comes first"""
+    if swap:
+        blocks = blocks[::-1]
     a = sten_lr(blocks[0], *sx)
     if len(blocks) > 1:
         a = a + 3 * sten_lr(blocks[1], *sy)
@@ -225,6 +230,12 @@ def check(ctx, case):
         kw["align_arrays"] = False
     if case.get("allow_rechunk") is False:
         kw["allow_rechunk"] = False
+    swap = bool(case.get("swap")) and sec is not None
+    if swap:
+        # the lower-rank input is handed over FIRST (the trim settings must still come from the highest-rank one)
+        depth = depth[::-1] if isinstance(depth, list) else depth
+        boundary = boundary[::-1] if isinstance(boundary, list) else boundary
+        fkw["swap"] = True
     args = {"depth": depth, "boundary": boundary, "kw": kw}
     keep = copy.deepcopy(args)
 
@@ -233,7 +244,7 @@ def check(ctx, case):
         seen[sig + suffix] = seen.get(sig + suffix, 0) + 1
         if seen[sig + suffix] > 3:  # the first three inputs of a class are reported in full, the rest only counted
             return
-        ctx.fail(sig + suffix, dict(case, call=f"da.map_overlap(f_axes, x{', y' if sec is not None else ''}, depth={keep['depth']!r}, boundary={keep['boundary']!r}, "
+        ctx.fail(sig + suffix, dict(case, call=f"da.map_overlap(f_axes, {'x' if sec is None else 'y, x' if swap else 'x, y'}, depth={keep['depth']!r}, boundary={keep['boundary']!r}, "
                                                f"dtype=int64, **{keep['kw']!r})", **more), what)
 
     with warnings.catch_warnings(), dask.config.set(scheduler="sync"):
@@ -242,7 +253,12 @@ def check(ctx, case):
             arrs = [da.from_array(x, chunks=info["chunks"])]
             if sec is not None:
                 arrs.append(da.from_array(y, chunks=sec["chunks"]))
-            r = da.map_overlap(f_axes, *arrs, depth=depth, boundary=boundary, dtype=x.dtype, **kw, **fkw)
+            if swap:
+                arrs = arrs[::-1]
+            if case.get("method") and sec is None:
+                r = arrs[0].map_overlap(f_axes, depth, boundary, dtype=x.dtype, **kw, **fkw)
+            else:
+                r = da.map_overlap(f_axes, *arrs, depth=depth, boundary=boundary, dtype=x.dtype, **kw, **fkw)
             adv_shape = tuple(r.shape)
             adv_chunks = tuple(tuple(c) for c in r.chunks)
             got = np.asarray(r.compute())
@@ -390,7 +406,7 @@ def build(rng, nd, drop=(), dstyle=None, new=None, dseed=0, trim=True, give_chun
         case["align_arrays"] = bool(align)
         if not (uniform and dform == "scalar" and rng.random() < 0.5):
             case["depth"] = {"l": [depth, _enc_depth(per[nd - m:], rng.choice(["dict", "tuple"]), rng)]}
-        if not (uniform and rng.random() < 0.5):
+        if not (uniform and not asym and rng.random() < 0.5):
             case["boundary"] = {"l": [boundary, enc_boundary(kinds[nd - m:], "tuple", rng)]}
     return case
 
@@ -404,7 +420,7 @@ def key_of(case, info, outcome):
     after = any(info["lr"][a] != info["lr"][k] or str(info["kinds"][a]) != str(info["kinds"][k]) for k in info["drop"] for a in range(k + 1, nd))
     sec = info["sec"]
     return ("ovaxes", nd, dstyle, dclass, nclass, isinstance(case.get("new_axis"), dict), after, bool(case.get("give_chunks")), bool(case.get("trim", True)),
-            None if sec is None else (sec["m"], bool(case.get("align_arrays", True))), outcome)
+            None if sec is None else (sec["m"], bool(case.get("align_arrays", True)), bool(case.get("swap"))), bool(case.get("method")), case.get("allow_rechunk") is False, outcome)
 
 
 def grid(rng, tier="quick"):
@@ -431,7 +447,7 @@ def grid(rng, tier="quick"):
         for p in range(nd + 1):
             k += 1
             yield build(rng, nd, new=p, dseed=k)
-        for lst in ([0, 1], [0, nd + 1], [1, nd], [nd, nd + 1]):
+        for lst in ([0, 1], [nd + 1, 0], [1, nd], [nd, nd + 1]):  # (one of them spelled in descending order)
             k += 1
             yield build(rng, nd, new=lst, dseed=k)
     # both together (new positions are positions in the output, whose rank is nd - #drop + #new)
@@ -459,7 +475,10 @@ def grid(rng, tier="quick"):
             for align in (True, False):
                 k += 1
                 a = (k + m) % nd
-                yield build(rng, nd, drop=(a,), dstyle="neg" if align else next(rot), second=m, align=align, dseed=k, uniform=(k % 3 == 0))
+                c = build(rng, nd, drop=(a,), dstyle="neg" if align else next(rot), second=m, align=align, dseed=k, uniform=(k % 3 == 0))
+                if (k + m) % 2:
+                    c["swap"] = True
+                yield c
         k += 1
         yield build(rng, nd, new=1, second=nd - 1, dseed=k)
         k += 1
@@ -481,14 +500,27 @@ def random_case(rng, k):
     new = None
     if rng.random() < (0.35 if drop else 0.8):
         nout = nd - ndrop
-        new = rng.randint(0, nout) if rng.random() < 0.6 else sorted(rng.sample(range(nout + 2), 2))
+        new = rng.randint(0, nout) if rng.random() < 0.6 else sorted(rng.sample(range(nout + 2), 2), reverse=rng.random() < 0.3)
     trim = rng.random() < 0.8
     give = rng.random() < 0.25 or (not drop and new is None)
     second = None
     if rng.random() < 0.25:
         second = rng.randint(1, nd)
-    return build(rng, nd, drop=drop, dstyle=dstyle, new=new, dseed=k, trim=trim, give_chunks=give, second=second, align=rng.random() < 0.7,
-                 asym=rng.random() < 0.15, uniform=rng.random() < 0.15)
+    structured = True if (give or not trim) else rng.random() < 0.3
+    case = build(rng, nd, drop=drop, dstyle=dstyle, new=new, dseed=k, trim=trim, give_chunks=give, second=second, align=rng.random() < 0.7,
+                 asym=rng.random() < 0.15, uniform=rng.random() < 0.15, structured=structured)
+    if structured and rng.random() < 0.4:
+        case["allow_rechunk"] = False  # every block already holds its halo: must not change anything
+    if second is not None and rng.random() < 0.4:
+        case["swap"] = True
+    if second is None:
+        if rng.random() < 0.3:
+            case["method"] = True  # x.map_overlap(func, depth, boundary, **kwargs)
+        if rng.random() < 0.25:
+            case["depth"] = {"l": [case["depth"]]}  # the per-array list spelling with one array
+        if rng.random() < 0.15:
+            case["boundary"] = {"l": [case["boundary"]]}
+    return case
 
 
 def search(ctx):
@@ -498,15 +530,15 @@ def search(ctx):
     t0 = time.time()
     n = 0
     budget = ctx.scale(8.0, 90.0)
-    cases = itertools.chain(grid(rng, ctx.tier), (random_case(rng, 1000 + j) for j in range(ctx.scale(40, 1500))))
-    for case in cases:
+    cases = itertools.chain(((c, True) for c in grid(rng, ctx.tier)), ((random_case(rng, 1000 + j), False) for j in range(ctx.scale(60, 1500))))
+    for case, fixed in cases:
         info = read(case)
         r = check(ctx, case)
         ctx.count(key_of(case, info, r))
         n += 1
         if n in (5, 60):
             ctx.sample(case)
-        if time.time() - t0 > budget and n >= 60:
+        if not fixed and time.time() - t0 > budget:  # (the grid always runs whole; only the random tail is cut on a loaded machine)
             ctx.notes["ovaxes.cut_short_after"] = n
             break
     ctx.notes["search.ovaxes"] = n
